@@ -228,8 +228,12 @@ impl RecvWindow {
             Err(ErrorCode::InvalidData)?;
         }
 
+        // Validate everything on local copies first, so that a refused segment leaves no trace
+        let mut rem_msg_len = self.rem_msg_len;
+        let mut new_msg_len = None;
+
         if let Some(msg_len) = hdr.get_msg_len() {
-            if self.rem_msg_len > 0 {
+            if rem_msg_len > 0 {
                 warn!("RX data integrity failure: A new SDU begins before the previous one is complete");
                 Err(ErrorCode::InvalidData)?;
             }
@@ -239,37 +243,43 @@ impl RecvWindow {
                 Err(ErrorCode::InvalidData)?;
             }
 
-            self.rem_msg_len = msg_len;
+            rem_msg_len = msg_len;
 
             if msg_len > 0 {
-                if self.buf.free() >= core::mem::size_of::<u16>() {
-                    // New SDU; skip 0-length ones as they do not contain Matter messages
-                    self.buf.push(&u16::to_le_bytes(msg_len));
-                } else {
-                    warn!("RX data integrity failure: got more data when the ring-buffer is full. Is the other party overflowing our recv window?");
-                    Err(ErrorCode::InvalidData)?;
-                }
+                // New SDU; skip 0-length ones as they do not contain Matter messages
+                new_msg_len = Some(msg_len);
             }
         }
 
-        if self.rem_msg_len < payload.len() as u16 {
+        if (rem_msg_len as usize) < payload.len() {
             warn!("RX data integrity failure: Packet contains more data than the message length");
             Err(ErrorCode::InvalidData)?;
         }
 
-        self.rem_msg_len -= payload.len() as u16;
-        if hdr.is_final() && self.rem_msg_len > 0 {
+        rem_msg_len -= payload.len() as u16;
+        if hdr.is_final() && rem_msg_len > 0 {
             warn!(
                 "RX data integrity failure: Packet is final but the message length is not reached"
             );
             Err(ErrorCode::InvalidData)?;
         }
 
-        if self.buf.free() < payload.len() {
+        let prefix_len = if new_msg_len.is_some() {
+            core::mem::size_of::<u16>()
+        } else {
+            0
+        };
+
+        if self.buf.free() < prefix_len + payload.len() {
             warn!("RX data integrity failure: got more data when the ring-buffer is full. Is the other party overflowing our recv window?");
             Err(ErrorCode::InvalidData)?;
         }
 
+        if let Some(msg_len) = new_msg_len {
+            self.buf.push(&u16::to_le_bytes(msg_len));
+        }
+
+        self.rem_msg_len = rem_msg_len;
         self.buf.push(payload);
         self.level -= 1;
         // Unwrap is safe because we are only processing BTP data segments here and they always have a sequence number
